@@ -49,6 +49,8 @@ def run(ctx):
     res.rule("C20-R4", "locals are assigned before use: clang's CFG-based -Werror=uninitialized family is silent on all library units; an "
                         "uninitialised local whose address is passed out is written by the callee on every path")
     res.rule("C20-R5", "padding and gaps are explicit: frames are padded with explicit zeros (C07-R1) and builders write every byte they advance over (C13-R3)")
+    res.rule("C20-R6", "no foreign memory: payload bytes are copied out of the caller's buffer only under the message-level bounds (C03-R4: isValidPacket "
+                        "guards its reads and bounds the declared length; packets are built from raw bytes only under it)")
     res.assumptions += ["memory the caller passes in is defined", "std::vector(n) and resize(n) value-initialise their elements (libstdc++)"]
     res.not_decided += ["anything about memory the caller passes in"]
 
@@ -207,6 +209,13 @@ def run(ctx):
     for o in sub13.obligations:
         if o["rule"] == "C13-R3":
             res.check(o["ok"], "C20-R5", "builders:" + o["key"], o["loc"], o["detail"])
+    # ---- R6 copies out of caller-supplied buffers are bounded (C03-R4: message level)
+    from rules import c03
+    sub03 = c03.run(ctx)
+    for o in sub03.obligations:
+        if o["rule"] == "C03-R4":
+            res.check(o["ok"], "C20-R6", "input-bounds:" + o["key"], o["loc"], o["detail"])
+    res.floor("C20-R6", 5)
     res.floor("C20-R1", 25, n1)
     res.floor("C20-R2", 4, n2)
     res.floor("C20-R3", 10, n3)
